@@ -89,6 +89,8 @@ def mk(op, N, k=1, tk=None, region=None, rname='', lead=2, trail=0, gap='sym', d
         parts.append('after-roReplace')
     if extra and extra.get('prefail'):
         parts.append('after-refused-messages')
+    if extra and extra.get('presend'):
+        parts.append('after-roStorySend-of-every-story')
     if k != 1:
         parts.append('k%d' % k)
     if tk and tk != 'existing':
@@ -174,6 +176,10 @@ def cells(tier):
                    ('roStoryAppend', {}), ('EAStoryInsert', {'tk': 'blank'}), ('EAStoryDelete', {'k': 2}),
                    ('EAStoryReplace', {})):
         out.append(mk(op, 3, gap=None, rname='any', timeout=T, extra={'prefail': True}, **kw))
+    # the same when every story was re-sent by a roStorySend before (stories built by StorySend: roID first)
+    for op, kw in (('roStoryMove', {}), ('EAStoryMove', {'k': 2}), ('roStoryDelete', {}), ('roStoryReplace', {}),
+                   ('roStorySend', {}), ('EAStorySwap', {'k': 2}), ('roStoryInsert', {}), ('EAStoryDelete', {'k': 2})):
+        out.append(mk(op, 3, gap=None, rname='any', timeout=T, extra={'presend': True}, **kw))
     # a running order without any story
     for op, kw in (('roStoryAppend', {'k': 1}), ('roStoryAppend', {'k': 2}), ('EAStoryInsert', {'tk': 'blank', 'k': 2}),
                    ('EAStoryInsert', {'tk': 'absent'})):
